@@ -15,6 +15,14 @@ F32 = [np.array([b], "<u4").view("<f4")[0] for b in _F32_BITS]  # +0 -0 1 -2.5 d
 _F64_BITS = [0x0, 0x8000000000000000, 0x3FF0000000000000, 0xC004000000000000, 0x1, 0x000FFFFFFFFFFFFF,
              0x7FEFFFFFFFFFFFFF, 0xFFEFFFFFFFFFFFFF, 0x3FB999999999999A]
 F64 = [np.array([b], "<u8").view("<f8")[0] for b in _F64_BITS]
+# values that are ordinary numbers wherever a float is not a sample of a run-length coded item (there NaN means
+# "missing" and the library treats inf in the first component as missing too, see DESIGN.md section 5):
+# +-inf, the default quiet NaN, a quiet NaN with payload (no signalling NaN: scalars travel through Python
+# floats, and the float32 -> float64 -> float32 conversion of the hardware quiets them - not the library's doing)
+_F32X_BITS = [0x7F800000, 0xFF800000, 0x7FC00000, 0xFFC00001]
+F32X = [np.array([b], "<u4").view("<f4")[0] for b in _F32X_BITS]
+_F64X_BITS = [0x7FF0000000000000, 0xFFF0000000000000, 0x7FF8000000000000, 0xFFF8000000000001]
+F64X = [np.array([b], "<u8").view("<f8")[0] for b in _F64X_BITS]
 LABELS = ["", "a", "A", " a", "a ", "é€ß", "x" * 255]
 LABELS32 = ["", "a", "A", " a", "a ", "é€ß", "y" * 31]
 INT_FREQ = [0, 1, 100, 2 ** 31 - 1]
@@ -313,6 +321,14 @@ def family(t, tier):
                     else:
                         it["position"].reshape(-1)[pos - 2] = v
                     yield ("float", platcal([(0, it)]), {"mem": mem})
+        for v in F32X:
+            for pos in (0, 1, 2, 13):
+                it = mk_platinfo("p", 0)
+                if pos < 2:
+                    it["size"][pos] = v
+                else:
+                    it["position"].reshape(-1)[pos - 2] = v
+                yield ("floatx", platcal([(3, mk_platinfo("q", 1)), (0, it)]), opts0)
     elif t == R.T_DATA2D:
         shapes = [(1, 1), (1, 2), (2, 1), (2, 2)] + ([(3, 2), (2, 3)] if thorough else [])
         for (nf, nc) in shapes:
@@ -329,7 +345,7 @@ def family(t, tier):
         base = lambda: data2d(2, 2, cells_grid(2, 2, (1, 0, 3, 1)))  # noqa: E731
         for f in INT_FREQ:
             yield ("scalar", {**base(), "frequency": f}, opts0)
-        for v in F32:
+        for v in F32 + F32X:
             yield ("scalar", {**base(), "startTime": v}, opts0)
         for fl in (0, 1):
             yield ("scalar", {**base(), "flags": fl}, opts0)
@@ -358,6 +374,13 @@ def family(t, tier):
                         c = mk_cam(fmt, 0)
                         c[name].reshape(-1)[pos] = v
                         yield ("float", calib(fmt, [mk_cam(fmt, 3), c]), opts0)
+            for v in F64X:
+                for name in names:
+                    size = mk_cam(fmt, 0)[name].size
+                    for pos in sorted({0, size - 1}):
+                        c = mk_cam(fmt, 0)
+                        c[name].reshape(-1)[pos] = v
+                        yield ("floatx", calib(fmt, [mk_cam(fmt, 3), c]), opts0)
             for v in INT_I32:
                 for name in ("origin", "size"):
                     for pos in (0, 1):
@@ -403,6 +426,15 @@ def family(t, tier):
                 e = mk_event("e", 1, 3)
                 e["values"][pos] = v
                 yield ("float", events([mk_event("d", 0, 1), e]), opts0)
+        for v in F32X:
+            yield ("floatx", events([mk_event("e", 1, 2)], startTime=v), opts0)
+            for pos in (0, 2):
+                e = mk_event("e", 1, 3)
+                e["values"][pos] = v
+                yield ("floatx", events([mk_event("d", 0, 1), e]), opts0)
+            e = mk_event("s", 0, 1)
+            e["values"][0] = v
+            yield ("floatx", events([e, mk_event("d", 1, 2)]), opts0)
     else:
         raise ValueError(t)
 
@@ -432,10 +464,10 @@ def _poke(sp, t, pos, v):
             it["torque"][fr] = v
 
 
-def _geom_devs(base):
+def _geom_devs(base, alphabet=None):
     for name, size in (("vol", 3), ("rot", 9), ("trans", 3)):
         for pos in sorted({0, size - 1}):
-            for v in F32:
+            for v in (F32 if alphabet is None else alphabet):
                 sp = dict(base)
                 a = np.array(base[name], copy=True)
                 a.reshape(-1)[pos] = v
@@ -446,10 +478,11 @@ def _geom_devs(base):
 def _scalar_devs(t, base):
     for f in INT_FREQ:
         yield {**base, "frequency": f}
-    for v in F32:
+    for v in F32 + F32X:
         yield {**base, "startTime": v}
     if t in (R.T_DATA3D, R.T_FORCE3D):
         yield from _geom_devs(base)
+        yield from _geom_devs(base, F32X)
     if t == R.T_DATA3D:
         for fl in (0, 1):
             yield {**base, "flags": fl}
